@@ -463,6 +463,101 @@ theorem writeTour_activities (v : Veh) (acts : List RAct) (t : WTour) (h : write
   · rename_i hc; simpa using hc
   · simp at h1
 
+/-! ## the break writer (model of `insert_reserved_times_as_breaks`) -/
+
+theorem tidyX_toX (s : WStop) : tidyX s.toX = (tidyStop s).toX := by
+  obtain ⟨loc, arr, dep, dist, load, acts⟩ := s
+  cases acts with
+  | nil => rfl
+  | cons a r =>
+    cases r with
+    | nil =>
+      simp only [tidyX, tidyStop, WStop.toX]
+      cases a.loc <;> first | rfl | simp
+    | cons b r' => rfl
+
+/-- without reserved times the writer with breaks is the plain writer -/
+theorem writeTourX_nil (v : Veh) (acts : List RAct) (openEnd : Bool) :
+    writeTourX v acts openEnd [] = (writeTour v acts).map (fun t => { stops := t.stops.map WStop.toX, stat := t.stat }) := by
+  unfold writeTourX writeTour insertBreaks
+  cases foldRoute v acts with
+  | none => rfl
+  | some s =>
+    simp only [Option.map_some, Option.some.injEq]
+    have e : (s.stops.map WStop.toX).map tidyX = (s.stops.map tidyStop).map WStop.toX := by
+      simp [List.map_map, Function.comp_def, tidyX_toX]
+    cases acts.head? <;> cases acts.getLast? <;> simp [e]
+
+/-- the stable sort of the activities of a stop loses and invents nothing -/
+theorem insertByTime_count (p : WActivity → Bool) (x : WActivity) (l : List WActivity) :
+    (insertByTime x l).countP p = (x :: l).countP p := by
+  induction l with
+  | nil => rfl
+  | cons y r ih =>
+    unfold insertByTime
+    split
+    · simp only [List.countP_cons, ih]; omega
+    · rfl
+
+theorem sortByTime_count (p : WActivity → Bool) (l : List WActivity) : (sortByTime l).countP p = l.countP p := by
+  induction l with
+  | nil => rfl
+  | cons x r ih =>
+    show (insertByTime x (sortByTime r)).countP p = _
+    rw [insertByTime_count, List.countP_cons, List.countP_cons, ih]
+
+theorem sortByTime_length (l : List WActivity) : (sortByTime l).length = l.length := by
+  have := sortByTime_count (fun _ => true) l
+  simpa [List.countP_eq_length] using this
+
+theorem insertAt_countP {α : Type} (p : α → Bool) (l : List α) (k : Nat) (x : α) :
+    (insertAt l k x).countP p = l.countP p + (if p x then 1 else 0) := by
+  have := List.countP_append (p := p) (l₁ := l.take k) (l₂ := l.drop k)
+  rw [List.take_append_drop] at this
+  simp only [insertAt, List.countP_append, List.countP_cons]
+  omega
+
+theorem stretch_type (rtw : TW) (a : WActivity) : (stretch rtw a).type = a.type := by
+  unfold stretch
+  split
+  · split <;> rfl
+  · rfl
+
+/-- one break written into a stop: exactly one more activity, and it is the break -/
+theorem insertBreak_activities (v : Veh) (moved : Option (Nat × TW)) (rtw : TW) (ov bt : Int) (idx : Nat) (stop : XStop) (stat : WStat) :
+    (insertBreak v moved rtw ov bt idx stop stat).1.activities.length = stop.activities.length + 1
+    ∧ (insertBreak v moved rtw ov bt idx stop stat).1.activities.countP (fun a => a.type == "break")
+        = stop.activities.countP (fun a => a.type == "break") + 1 := by
+  unfold insertBreak
+  simp only [sortByTime_length, sortByTime_count]
+  constructor
+  · simp [insertAt, List.length_zipIdx]
+    have : min (match List.find? (fun x => twIntersects (x.1.time.getD (stop.arrival, stop.departure)) rtw) stop.activities.zipIdx with
+        | some (_, k) => k + 1 | none => stop.activities.length) stop.activities.length ≤ stop.activities.length := Nat.min_le_right _ _
+    omega
+  · rw [List.countP_map]
+    have hc : ∀ (k : Nat) (l : List (WActivity × Nat)),
+        List.countP ((fun a => a.type == "break") ∘ fun x => if x.2 == k then x.1 else stretch rtw x.1) l
+          = List.countP (fun x => x.1.type == "break") l := by
+      intro k l
+      apply List.countP_congr
+      intro x _
+      simp only [Function.comp]
+      split
+      · rfl
+      · rw [stretch_type]
+    rw [hc]
+    have hz : ∀ l : List WActivity, List.countP (fun x : WActivity × Nat => x.1.type == "break") l.zipIdx
+        = List.countP (fun a => a.type == "break") l := by
+      intro l
+      have : List.countP (fun x : WActivity × Nat => x.1.type == "break") l.zipIdx
+          = List.countP (fun a => a.type == "break") (l.zipIdx.map (·.1)) := by
+        rw [List.countP_map]; rfl
+      rw [this, List.zipIdx_map_fst]
+    rw [hz]
+    rw [insertAt_countP]
+    simp [breakActivity]
+
 /-! ## non-vacuity: a concrete route with a reload, a break, waiting and a job at the depot -/
 
 private def r0 : RAct := { loc := 0, arr := 0, dep := 10, tws := 0, dur := 0, placeIdx := 0, type := none, jobId := none, rootId := none,
@@ -482,5 +577,12 @@ example : ((writeTour veh0 [r0, r1, r2, r3, r4, r5]).map (fun t => (t.stops.leng
 example : ((writeTour veh0 [r0, r1, r2, r3, r4, r5]).map (fun t => specTour veh0 [r0, r1, r2, r3, r4, r5] t)) = some [] := by decide
 /-- the specification is not trivially true: a tour that lost an activity is rejected -/
 example : ((writeTour veh0 [r0, r1, r2, r3, r4, r5]).map (fun t => (specTour veh0 [r0, r1, r3, r4, r5] t).isEmpty)) = some false := by decide
+
+/-- a required break 23-28 taken while the vehicle waits 22-30 at `r2` (S52): the waiting entry gives the overlap up, the
+    timing entries still add up to the duration and the cost does not move -/
+example : ((writeTourX veh0 [r0, r1, r2, r3, r4, r5] false [⟨false, 23, 23, 5⟩]).map
+      (fun t => (t.stat.breakT, t.stat.waiting, t.stat.cost,
+                 t.stat.driving + t.stat.serving + t.stat.waiting + t.stat.breakT == t.stat.duration)))
+    = some (13, 3, 100 + 180 * 2 + 54 * 3, true) := by decide
 
 end C03W
